@@ -60,6 +60,10 @@ size_t splinetable<Alloc>::estimateMemory(const std::string& filePath,
 	
 	size_t size = sizeof(splinetable<Alloc>); //main object
 	
+	//count the auxiliary keywords while the primary HDU, which holds them,
+	//is still the current one
+	uint32_t naux = countAuxKeywords(fits);
+	
 	//count knots
 	for (int i = 0; i < dim; i++) {
 		std::ostringstream hduname;
@@ -91,7 +95,6 @@ size_t splinetable<Alloc>::estimateMemory(const std::string& filePath,
 	size += dim*sizeof(uint64_t); //naxes
 	size += dim*sizeof(uint64_t); //strides
 	
-	uint32_t naux = countAuxKeywords(fits);
 	//pessimistically assume all keys and values are maximal length
 	size += naux*(FLEN_KEYWORD+FLEN_VALUE)*sizeof(char);
 	
